@@ -738,8 +738,78 @@ fn mode_c18cap(args: &std::collections::HashMap<String, String>) -> Value {
             let _ = std::fs::remove_file(&path);
         }
     }
+    // (c) Writer dead for ever at its k-th point; a client that attaches only afterwards makes its
+    // very first call (nothing cached yet).
+    let mut fresh_cases = 0u64;
+    for k in 1..=12u64 {
+        if k % _nshards != shard {
+            continue;
+        }
+        for gen0 in [6u16, 65534, 1] {
+            let path = dir.join(format!("fresh{}_{}", k, gen0));
+            std::fs::write(&path, segment_bytes(1, gen0, 3)).unwrap();
+            let cpath = CString::new(path.to_str().unwrap()).unwrap();
+            {
+                let mut wr = ShmWriter::new(&path).unwrap();
+                let cnt = Rc::new(Cell::new(0u64));
+                let c2 = cnt.clone();
+                set_handler(Some(Box::new(move |q: &Point| {
+                    if !q.site.ends_with(".post") {
+                        c2.set(c2.get() + 1);
+                        if c2.get() == k {
+                            std::panic::panic_any(7u8);
+                        }
+                    }
+                })));
+                let _ = std::panic::catch_unwind(std::panic::AssertUnwindSafe(|| wr.write(&encode(5))));
+                set_handler(None);
+                drop(wr);
+            }
+            let accesses = Rc::new(Cell::new(0u64));
+            {
+                let a = accesses.clone();
+                set_handler(Some(Box::new(move |p: &Point| {
+                    if p.site == "load.pre" || p.site == "rword.pre" {
+                        a.set(a.get() + 1);
+                        if a.get() > ACCESS_BOUND + 10 {
+                            std::panic::panic_any("access bound exceeded");
+                        }
+                    }
+                })));
+            }
+            let res = std::panic::catch_unwind(std::panic::AssertUnwindSafe(|| match ShmReader::new(&cpath) {
+                Ok(mut r) => match r.snapshot() {
+                    Ok(c) => format!("{:?}", decode(c)),
+                    Err(e) => format!("Err({:?})", e),
+                },
+                Err(e) => format!("OpenErr({:?})", e),
+            }));
+            set_handler(None);
+            evaluations += 1;
+            fresh_cases += 1;
+            max_accesses = max_accesses.max(accesses.get());
+            match res {
+                Ok(r) => {
+                    if r.starts_with("Blend") {
+                        let rp = format!("{}/C18-fresh-{}-{}.json", replay_dir, k, gen0);
+                        vworld::write_json(&rp, &json!({"property":"C18","engine":"c18cap","writer_point":k,"start_generation":gen0,"result":r}));
+                        violations.push(json!({"sig":"stuck-writer-torn","detail":format!("writer dead at its point {} (start generation {}), first call of a new client: {}", k, gen0, r),"replay":rp}));
+                    }
+                    if samples.len() < 10 && k == 4 {
+                        samples.push(json!({"case":"writer-dead-new-client", "writer_point": k, "start_generation": gen0, "accesses": accesses.get(), "result": r}));
+                    }
+                }
+                Err(_) => {
+                    let rp = format!("{}/C18-fresh-{}-{}.json", replay_dir, k, gen0);
+                    vworld::write_json(&rp, &json!({"property":"C18","engine":"c18cap","writer_point":k,"start_generation":gen0,"accesses":accesses.get()}));
+                    violations.push(json!({"sig":"unbounded-accesses","detail":format!("writer dead at its point {} (start generation {}): the first snapshot() of a new client exceeded {} shared accesses", k, gen0, ACCESS_BOUND),"replay":rp}));
+                }
+            }
+            let _ = std::fs::remove_file(&path);
+        }
+    }
     let _ = std::fs::remove_dir_all(&dir);
-    json!({"evaluations": evaluations, "stuck_cases": stuck_cases, "max_accesses_per_call": max_accesses, "capped_calls": capped_calls, "violations": violations, "samples": samples})
+    json!({"evaluations": evaluations, "stuck_cases": stuck_cases, "new_client_cases": fresh_cases, "max_accesses_per_call": max_accesses, "capped_calls": capped_calls, "violations": violations, "samples": samples})
 }
 
 fn mode_replay(args: &std::collections::HashMap<String, String>) -> Value {
